@@ -67,6 +67,10 @@ pub struct CostModel<'a> {
     pub frags: &'a [Frag],
     pub lws: &'a [f64],
     pub pen: Pen,
+    /// clamp the target width of a line to at least 1 (what the library does);
+    /// the documentation does not mention the clamp, so the monitors accept
+    /// optimality under either reading (they coincide for widths >= 1)
+    pub clamp: bool,
     prefix: Vec<f64>,
 }
 
@@ -79,14 +83,14 @@ impl<'a> CostModel<'a> {
             acc += f.w + f.ws;
             prefix.push(acc);
         }
-        CostModel { frags, lws, pen, prefix }
+        CostModel { frags, lws, pen, clamp: true, prefix }
     }
 
     /// Cost of one line holding fragments i..j (j > i) as line number `line_no`.
     pub fn line_cost(&self, i: usize, j: usize, line_no: usize) -> f64 {
         let n = self.frags.len();
         let last = &self.frags[j - 1];
-        let target = line_width(self.lws, line_no).max(1.0);
+        let target = if self.clamp { line_width(self.lws, line_no).max(1.0) } else { line_width(self.lws, line_no) };
         let lw = self.prefix[j] - self.prefix[i] - last.ws + last.pw;
         let mut cost = self.pen.nline as f64;
         if lw > target {
